@@ -255,10 +255,12 @@ class Engine:
                 last = cap is not None and tried + 1 >= cap
                 r, m2 = self._check(t != z3.BitVecVal(v, w))
                 if r != z3.unsat:
+                    # the term is recorded on every path through a site that has other values (callers may try the
+                    # remaining values of small selector fields concretely)
+                    self.path.caps.append((kind, tried + 1, t))
                     if last:
                         self.stats["capped_sites"] += 1
                         self.stats["capped_open"] += 1
-                        self.path.caps.append((kind, tried + 1, t))
                     else:
                         self.work.append(self.trail + [(v, False)])
                         self.stats["forks"] += 1
